@@ -232,6 +232,11 @@ fn post_drain(&mut self, disconnected: bool, clear_readiness: bool, mut action: 
         // so no message is left queued without a pending wake-up
         (!disconnected && !clear_readiness) ==> r == Ok::<PostAction, ChannelError>(PostAction::Continue)
             && crate::rustix::io::w_write_called(old(self).ping.raw(), crate::sources::ping::eventfd::ne_bytes(2)),
+//@ alt
+//@ sig
+/// (alternative overlay for a tail that also looks at the local `capacity` -- one more free variable; same contract, for
+/// every value of it)
+fn post_drain(&mut self, disconnected: bool, clear_readiness: bool, mut action: PostAction, capacity: usize) -> (r: Result<PostAction, ChannelError>)
 //@ endslice
 }
 
